@@ -12,7 +12,9 @@ CONSTANTS Contents,      \* sequence of feature records
           MaxObjs, MaxConvs, Depth,
           EntryPoints,   \* sequence of built-in class names, in entry point order
           Extra,         \* set of registrable test classes
-          ConstructClasses  \* classes constructed by hand in this configuration
+          ConstructClasses, \* classes constructed by hand in this configuration
+          WithDerive        \* BOOLEAN: explore Derive (model checking) or leave it out (emission of behaviours for replay, where
+                            \* derivations are the concrete Strip events of the vector cases)
 
 VARIABLES registry,  \* Seq of registered class names
           content,   \* obj -> index into Contents (0 = object does not exist)
@@ -103,10 +105,21 @@ Copy(o) ==
   /\ Log([a |-> "Copy", obj |-> o])
   /\ UNCHANGED <<registry, bound, cached, convs>>
 
+\* a dataset DERIVED from o (a copy with an attribute or a variable removed, ...): a fresh, unbound object whose content c2
+\* may differ from o's - what is detected for it depends on ITS content alone
+Derive(o, c2) ==
+  /\ o \in Live /\ c2 \in 1..Len(Contents) /\ \E n \in Objs : content[n] = 0
+  /\ LET n == CHOOSE n \in Objs : content[n] = 0 /\ \A m \in Objs : content[m] = 0 => n <= m
+     IN /\ content' = [content EXCEPT ![n] = c2]
+        /\ out' = [a |-> "Derive", obj |-> o, new |-> n]
+  /\ Log([a |-> "Derive", obj |-> o, content |-> c2])
+  /\ UNCHANGED <<registry, bound, cached, convs>>
+
 Next ==
   /\ Len(hist) < Depth
   /\ \/ \E k \in Extra : Register(k)
      \/ \E o \in Objs : Detect(o) \/ Access(o) \/ Copy(o)
+     \/ WithDerive /\ \E o \in Objs : \E c2 \in 1..Len(Contents) : c2 # content[o] /\ Derive(o, c2)
      \/ \E o \in Objs : \E k \in Classes : Construct(k, o)
      \/ \E c \in 1..MaxConvs : Bind(c)
 Spec == Init /\ [][Next]_vars
@@ -134,7 +147,7 @@ AccessReturnsBound ==
 BoundStable == [][\A o \in Objs : bound[o] # 0 => bound'[o] = bound[o]]_vars
 SecondBindRefused == [][\A c \in 1..Len(convs) : (hist' # hist /\ out'.a = "Bind" /\ out'.conv = c /\ bound[convs[c].obj] # 0) => ~out'.ok]_vars
 CopiesStartUnbound == [][\A n \in Objs : (content[n] = 0 /\ content'[n] # 0) => (bound'[n] = 0 /\ cached'[n] = 0)]_vars
-CopiesIndependent == [][\A o \in Objs : (content[o] # 0 /\ out'.a = "Copy") => bound'[o] = bound[o] /\ cached'[o] = cached[o]]_vars
+CopiesIndependent == [][\A o \in Objs : (content[o] # 0 /\ out'.a \in {"Copy", "Derive"}) => bound'[o] = bound[o] /\ cached'[o] = cached[o]]_vars
 
 \* ---------------------------------------------------------------- emission (Gen configuration)
 Emit == (Len(hist) = Depth \/ ~ENABLED Next) => PrintT(<<"CASE", ToJson([init |-> content, hist |-> hist])>>)
